@@ -156,6 +156,16 @@ def _check(case):
                         bad.append(f"MapSpec output {o} is neither a variable nor a coordinate")
                 elif o not in s1["vars"] and o not in s1["coords"]:
                     bad.append(f"output {o} (no MapSpec inputs) is missing from the dataset")
+                elif o in s1["vars"] and not spec and o in want and not any(
+                        n == o for g in prog["funcs"] if g.get("spec") for n, _ in g["spec"]["inputs"]):
+                    # (an array indexed by a later MapSpec gets a generated MapSpec of its own and is not such an output)
+                    # an output without a MapSpec: dimensionless, or a plain array with the value's own rank
+                    dims, vals = s1["vars"][o]
+                    rank = len(f["internal"]) if f.get("plain_array") and not f.get("as_list") else 0
+                    if len(dims) != rank:
+                        bad.append(f"output {o} without a MapSpec has dims {dims}, its value has rank {rank}")
+                    if progs.fz(vals) != progs.fz(want[o]):
+                        bad.append(f"output {o} without a MapSpec: {progs.fz(vals)[:80]} != value of the run {progs.fz(want[o])[:80]}")
         # a coordinate named like an array of the program must carry that array's values
         for k, (dims, cv) in s1["coords"].items():
             if ":" in k or cv == "nd":
